@@ -62,6 +62,8 @@ type GopCache struct {
 
 	// payload of the message cached in VideoSeqHeader (the cached block itself also carries the message timestamp)
 	videoSeqHeaderPayload []byte
+	// payload of the message cached in AacSeqHeader
+	aacSeqHeaderPayload []byte
 
 	gopRing              []Gop
 	gopRingFirst         int
@@ -109,7 +111,13 @@ func (gc *GopCache) Feed(msg base.RtmpMsg, b []byte) bool {
 		return true
 	case base.RtmpTypeIdAudio:
 		if msg.IsAacSeqHeader() {
+			// same rule as for video: the audio frames of the cached GOPs cannot be decoded with a changed configuration
+			if gc.AacSeqHeader != nil && !bytes.Equal(gc.aacSeqHeaderPayload, msg.Payload) {
+				gc.gopRingLast = 0
+				gc.gopRingFirst = 0
+			}
 			gc.AacSeqHeader = b
+			gc.aacSeqHeaderPayload = append(gc.aacSeqHeaderPayload[:0], msg.Payload...)
 			Log.Debugf("[%s] cache %s aac seq header. size:%d", gc.uniqueKey, gc.t, len(gc.AacSeqHeader))
 			return true
 		}
@@ -156,6 +164,7 @@ func (gc *GopCache) Clear() {
 	gc.VideoSeqHeader = nil
 	gc.videoSeqHeaderPayload = nil
 	gc.AacSeqHeader = nil
+	gc.aacSeqHeaderPayload = nil
 	gc.gopRingLast = 0
 	gc.gopRingFirst = 0
 }
